@@ -224,8 +224,50 @@ pub fn text_pairs(rng: &mut Rng, thorough: bool, with_invalid: bool) -> Vec<(Vec
     v
 }
 
+/// token-level reconstruction for inputs too large to log byte by byte: tokens are numbered by
+/// the harness's own dictionary (text -> number), so equal numbers mean equal token texts
+fn big_changes_record(case: i64, alg: Algorithm, old: &str, new: &str) -> Value {
+    let r = rec::guarded(|| {
+        let diff = make_diff(alg, "lines", old, new)?;
+        let mut dict: std::collections::HashMap<&str, u64> = Default::default();
+        let mut id = |t: &str, dict: &mut std::collections::HashMap<&str, u64>| -> u64 {
+            let n = dict.len() as u64;
+            // the lifetime of t is that of old/new
+            *dict.entry(unsafe { std::mem::transmute::<&str, &'static str>(t) }).or_insert(n)
+        };
+        let ot: Vec<u64> = diff.old_slices().iter().map(|t| id(t, &mut dict)).collect();
+        let nt: Vec<u64> = diff.new_slices().iter().map(|t| id(t, &mut dict)).collect();
+        let all: Vec<Value> = diff
+            .iter_all_changes()
+            .map(|c| {
+                json!([tagnum(c.tag()), c.old_index().map(|x| x as i64).unwrap_or(-1),
+                       c.new_index().map(|x| x as i64).unwrap_or(-1), id(c.value(), &mut dict)])
+            })
+            .collect();
+        Some((ot, nt, all))
+    });
+    match r {
+        Some(Some((ot, nt, all))) => json!({"ev":"textchanges_tok","case":case,"alg":alg_name(alg),"panic":false,
+            "old_tok":ot,"new_tok":nt,"all":all}),
+        _ => json!({"ev":"textchanges_tok","case":case,"alg":alg_name(alg),"panic":true,"old_tok":[],"new_tok":[],"all":[]}),
+    }
+}
+
 pub fn drive_c04(a: &Args, out: &mut Out) {
     let mut rng = Rng::new(a.num("seed", 1));
+    // inputs with more distinct tokens than a narrow integer can number
+    for &distinct in &[256usize, 65536] {
+        let mut x = String::new();
+        for k in 0..distinct {
+            x.push_str(&format!("l{}\n", k));
+        }
+        let y = format!("{}l0\n", x);
+        x.push_str("A\n");
+        for alg in [Algorithm::Myers, Algorithm::Patience] {
+            let case = out.next_case();
+            out.emit(&big_changes_record(case, alg, &x, &y));
+        }
+    }
     let pairs = text_pairs(&mut rng, a.thorough(), true);
     for (i, (x, y)) in pairs.iter().enumerate() {
         for (ki, kind) in DIFF_KINDS.iter().enumerate() {
